@@ -244,7 +244,15 @@ class MultiDiffBaseStorage(DiffBaseStorage):
         for storage in self.storages:
             # Let the individual stores to also clean the essence from their own fields.
             # For this, assume the the previous essence _is_ the body (what's left of it).
-            essence = storage.build(body=bodies.Body(essence), extra_fields=extra_fields)
+            # But keep the fields that decide the annotation names (see CollisionEvadingConvention):
+            # without them, the "-ofDRS" keys of ReplicaSets owned by Deployments are not cleaned.
+            pseudo = cast(dict[Any, Any], dict(essence))
+            if 'kind' in body:
+                pseudo['kind'] = body['kind']
+            if 'ownerReferences' in body.get('metadata', {}):
+                pseudo['metadata'] = dict(pseudo.get('metadata', {}),
+                                          ownerReferences=body['metadata']['ownerReferences'])
+            essence = storage.build(body=bodies.Body(pseudo), extra_fields=extra_fields)
         return essence
 
     def fetch(
